@@ -12,6 +12,8 @@ package rules
 //   C11.wrap    _eval_query_rewrite: try((user)) catch c, input | . , . | output, slurp plumbing, stage order
 //   C11.closed  wrapper queries handed to eval are built from a closed set of capture-free term constructors
 //   C11.repl    _repl is fed one array and iterates it; slurp functions evaluate .rewrite / .slurp_args[k] only
+//   C11.expr    the program text reaching _cli_eval is the argument / -f file content, untouched by option processing
+//   C11.handler the catch_query handlers cannot raise, halt or break
 //   C11.inputs  the plain and the --repl evaluation of the command-line program get the same input expression for every option combination
 //
 // Not decided: the printer (*gojq.Query).String itself.
@@ -57,6 +59,8 @@ func runC11(r *fw.Run, p *fw.Program) {
 	c.closed()
 	c.inputs()
 	c.repl()
+	c.exprRule()
+	c.handlerRule()
 	r.Assumption("(*gojq.Query).String (the printer of the gojq fork) parenthesises nothing by itself and prints what the AST says; its correctness for every precedence combination is not decided")
 }
 
